@@ -160,12 +160,13 @@ fn quoted_case(rng: &mut vcore::prng::Rng) -> (String, String, String, char, Str
                 body.push(q);
                 content.push(q);
             }
-            3 if q != '[' => {
+            // (a backslash keeps the closing delimiter inside the run, whatever the delimiter)
+            3 => {
                 body.push('\\');
-                body.push(q);
+                body.push(close);
                 used_backslash = true;
             }
-            4 if q != '[' => {
+            4 => {
                 body.push_str("\\\\");
                 used_backslash = true;
             }
